@@ -113,6 +113,26 @@ func runC06(c *eng.Ctx, tier string) {
 					continue
 				}
 				ok, why := guarded(r)
+				if !ok {
+					// the value is what a read helper of the operation answers:
+					// judged at the helper's own returns of a value (the helper
+					// is handed the operation's caller, action and name)
+					if hc, idx := eng.TupleCall(rv[0]); hc != nil && idx <= 0 && eng.IsHelper(m.Fn, eng.Callee(&hc.Call)) {
+						h := eng.Callee(&hc.Call)
+						all, n := true, 0
+						for _, r2 := range eng.Returns(h) {
+							rv2 := eng.RetVals(r2)
+							if len(rv2) == 0 || eng.IsNilConst(eng.Origin(rv2[0])) {
+								continue
+							}
+							n++
+							if ok2, why2 := guarded(r2); !ok2 {
+								all, why = false, why2
+							}
+						}
+						ok = all && n > 0
+					}
+				}
 				c.Check(ok, "R-C06-1", m.Fn, r.Pos(), "disclosure "+eng.InstrStr(r), want+" (audit before a value is returned)", why+" | holding here: "+factsStr(factsDeep(r)))
 			}
 		}
